@@ -50,7 +50,7 @@ type C09Plan struct {
 	Late     []C09File `json:"late,omitempty"` // written after the fault cycle
 	Family   string    `json:"family"`         // none | kill | podcrash | fserr
 	Job      int       `json:"job"`            // kill/fserr: which subprocess invocation of the first cycle
-	Only     []int     `json:"only,omitempty"` // restrict to these fault point numbers
+	Only     []string  `json:"only,omitempty"` // restrict to these fault points (keys such as "crash-before@rename:output.part#0")
 	MaxPts   int       `json:"max_points"`
 	PtSel    int       `json:"point_sel"`
 	Steps    int       `json:"step_points"` // number of scheduling-step kill points to add
@@ -98,7 +98,7 @@ func genC09(r *simrt.Rand, tier string) any {
 			p.AgeHours = 8*24 + r.Intn(48) // older than the daily tier's file-age check window
 		}
 	}
-	maxFiles := 10
+	maxFiles := 7
 	if tier == "thorough" {
 		maxFiles = 22
 	}
@@ -149,7 +149,7 @@ func genC09(r *simrt.Rand, tier string) any {
 	if r.Chance(20) {
 		p.Job = 1
 	}
-	p.MaxPts = 14
+	p.MaxPts = 10
 	if tier == "thorough" {
 		p.MaxPts = 40
 	}
@@ -202,6 +202,7 @@ func (g progress) label() string {
 }
 
 type faultPoint struct {
+	Key   string // stable identity: kind@op-class#ordinal (or step@permille)
 	No    int
 	Kind  string // crash-before | crash-after | torn | step | err | short
 	Idx   int64  // fs op index relative to the window base (crash/err) or step offset (step)
@@ -508,6 +509,7 @@ type epResult struct {
 	winSteps int64
 	podSteps int64
 	jobSteps []int64
+	partInputs int
 	fired    bool
 	jobs     int
 	killed   int
@@ -644,6 +646,7 @@ func (w *c09world) episode(fp *faultPoint, twin *epResult) *epResult {
 			pd.sn.CrashAtStep = 0
 		}
 		ep.jobs = len(pd.jobs)
+		defer func() { ep.partInputs = pd.partInputs }()
 		for _, j := range pd.jobs {
 			if j.killed {
 				ep.killed++
@@ -737,8 +740,11 @@ func progressAt(ops []fsRec, node string, idx int64) progress {
 func (w *c09world) faultPoints(twin *epResult) []faultPoint {
 	p := w.p
 	var pts []faultPoint
+	ord := map[string]int{}
 	add := func(kind string, idx int64, op string) {
-		pts = append(pts, faultPoint{Kind: kind, Idx: idx, Op: op, Label: progressAt(twin.ops, w.node, idx).label()})
+		k := kind + "@" + op
+		pts = append(pts, faultPoint{Key: fmt.Sprintf("%s#%d", k, ord[k]), Kind: kind, Idx: idx, Op: op, Label: progressAt(twin.ops, w.node, idx).label()})
+		ord[k]++
 	}
 	var storage, work []fsRec
 	for _, o := range twin.ops {
@@ -784,8 +790,8 @@ func (w *c09world) faultPoints(twin *epResult) []faultPoint {
 			add("crash-before", o.idx, desc(o))
 		}
 		for k := 0; k < p.Steps && twin.winSteps > 1; k++ {
-			off := 1 + (int64(p.PtSel)*7919+int64(k)*twin.winSteps/int64(p.Steps))%twin.winSteps
-			pts = append(pts, faultPoint{Kind: "step", Idx: off, Op: "sched-step", Label: "at-scheduling-step"})
+			pm := (int64(p.PtSel)*7 + int64(k)*1000/int64(p.Steps)) % 1000
+			pts = append(pts, stepPoint(pm, twin.winSteps))
 		}
 	case "fserr":
 		for _, o := range storage {
@@ -804,9 +810,19 @@ func (w *c09world) faultPoints(twin *epResult) []faultPoint {
 	}
 	if len(p.Only) > 0 {
 		var sel []faultPoint
-		for _, n := range p.Only {
-			if n >= 0 && n < len(pts) {
-				sel = append(sel, pts[n])
+		for _, key := range p.Only {
+			if strings.HasPrefix(key, "step@") {
+				var pm int64
+				fmt.Sscanf(key, "step@%d", &pm)
+				if twin.winSteps > 1 {
+					sel = append(sel, stepPoint(pm, twin.winSteps))
+				}
+				continue
+			}
+			for _, pt := range pts {
+				if pt.Key == key {
+					sel = append(sel, pt)
+				}
 			}
 		}
 		return sel
@@ -822,6 +838,14 @@ func (w *c09world) faultPoints(twin *epResult) []faultPoint {
 	}
 	return pts
 }
+
+func stepPoint(permille, winSteps int64) faultPoint {
+	return faultPoint{Key: fmt.Sprintf("step@%d", permille), Kind: "step", Idx: 1 + permille*(winSteps-1)/1000, Op: "sched-step", Label: "at-scheduling-step"}
+}
+
+// lastViolKey remembers the fault point of the most recent violation as a
+// hint for the shrinker (which only sees plans); it never influences a run.
+var lastViolKey string
 
 func familyWord(f string) string {
 	switch f {
@@ -918,7 +942,7 @@ func runC09(planAny any, cfg simrt.Config) *simkit.Outcome {
 		}
 		out.SimNs += ep.res.SimNs
 		out.Decisions += ep.res.Decisions
-		if fail(ep, fmt.Sprintf("%s#%d", p.Family, fp.No)) {
+		if fail(ep, p.Family+" "+fp.Key) {
 			out.Tail = ep.res.Tail
 			break
 		}
@@ -934,11 +958,18 @@ func runC09(planAny any, cfg simrt.Config) *simkit.Outcome {
 			out.Stats["probe.extra_jobs_after_fault"]++
 		}
 		for _, v := range ep.verdicts {
-			rule := fmt.Sprintf("%s.%s.%s", v.rule, familyWord(p.Family), fp.Label)
-			out.Violate(rule, "fault point #%d (%s %s at fs-op %d of the %s window; %s): %s", fp.No, fp.Kind, fp.Op, fp.Idx, p.Family, fp.Label, v.msg)
+			label := fp.Label
+			if ep.partInputs > 0 && strings.HasPrefix(v.rule, "C09.rows-duplicated") {
+				// diagnosis, not oracle: the duplicate rows came from a complete
+				// "<output>.part" staging file that a later job read as an input
+				label = "leftover-staging-part-file-compacted-as-input"
+			}
+			rule := fmt.Sprintf("%s.%s.%s", v.rule, familyWord(p.Family), label)
+			out.Violate(rule, "fault point %s (index %d in the %s window of node %s; durable before it: %s): %s", fp.Key, fp.Idx, p.Family, w.node, fp.Label, v.msg)
 		}
 		if len(out.Violations) > 0 {
 			out.Tail = ep.res.Tail
+			lastViolKey = fp.Key
 			break
 		}
 	}
@@ -954,17 +985,14 @@ func shrinkC09(planAny any) []any {
 		q := *p
 		q.Files = append([]C09File(nil), p.Files...)
 		q.Late = append([]C09File(nil), p.Late...)
-		q.Only = append([]int(nil), p.Only...)
+		q.Only = append([]string(nil), p.Only...)
 		q.GapS = append([]int(nil), p.GapS...)
 		return &q
 	}
-	if len(p.Only) != 1 && p.Family != "none" {
-		for k := 0; k < 64; k++ {
-			q := cp()
-			q.Only = []int{k}
-			out = append(out, q)
-		}
-		return out
+	if len(p.Only) != 1 && p.Family != "none" && lastViolKey != "" {
+		q := cp()
+		q.Only = []string{lastViolKey}
+		out = append(out, q)
 	}
 	if len(p.Late) > 0 {
 		q := cp()
@@ -991,14 +1019,10 @@ func shrinkC09(planAny any) []any {
 		q.Knobs.ConsumedHook = ""
 		out = append(out, q)
 	}
-	// dropping files changes the op numbering, so the point restriction is
-	// lifted again for those candidates
 	for i := range p.Files {
 		if len(p.Files) > 2 {
 			q := cp()
 			q.Files = append(q.Files[:i], q.Files[i+1:]...)
-			q.Only = nil
-			q.MaxPts = 64
 			out = append(out, q)
 		}
 	}
